@@ -3,9 +3,9 @@
 package c01node
 
 import (
-	"math/rand"
 	"encoding/json"
 	"fmt"
+	"math/rand"
 	"os"
 	"path/filepath"
 	"testing"
@@ -17,10 +17,10 @@ import (
 	"github.com/nspcc-dev/neo-go/pkg/config"
 	"github.com/nspcc-dev/neo-go/pkg/core"
 	"github.com/nspcc-dev/neo-go/pkg/core/block"
-	"github.com/nspcc-dev/neo-go/pkg/core/transaction"
-	"github.com/nspcc-dev/neo-go/pkg/smartcontract/trigger"
 	"github.com/nspcc-dev/neo-go/pkg/core/storage"
 	"github.com/nspcc-dev/neo-go/pkg/core/storage/dbconfig"
+	"github.com/nspcc-dev/neo-go/pkg/core/transaction"
+	"github.com/nspcc-dev/neo-go/pkg/smartcontract/trigger"
 )
 
 type noClose struct{ storage.Store }
@@ -40,26 +40,26 @@ type replicaCfg struct {
 }
 
 type replica struct {
-	cfg   replicaCfg
-	path  string
-	mem   storage.Store
-	bc    *core.Blockchain
-	up    bool
+	cfg     replicaCfg
+	path    string
+	mem     storage.Store
+	bc      *core.Blockchain
+	up      bool
 	retired bool // diverged for a listed (known) reason: no longer a replica of this world
-	h     uint32
-	lastD chainkit.Digest
+	h       uint32
+	lastD   chainkit.Digest
 }
 
 // chain-wide settings of a world (identical for reference and replicas)
 type world struct {
-	net      *chainkit.Net
-	protocol func(*config.Blockchain)
-	ref      *core.Blockchain
-	gen      *histgen.Gen
-	blocks   [][]byte // blocks[i] = block of height i+1
-	refD     []chainkit.Digest
-	srih     bool
-	smallMTB bool
+	net        *chainkit.Net
+	protocol   func(*config.Blockchain)
+	ref        *core.Blockchain
+	gen        *histgen.Gen
+	blocks     [][]byte // blocks[i] = block of height i+1
+	refD       []chainkit.Digest
+	srih       bool
+	smallMTB   bool
 	refFlat    [][]item   // C03: flat storage after block i+1
 	refScripts [][][]byte // C03: read-only scripts evaluated live at height i+1
 	rnd        *rand.Rand
